@@ -483,8 +483,45 @@ class _SourceIter:
         raise StopIteration
 
 
-def build(ops, src, prints):
-    s = Stream(src)
+def _kw1(f):
+    """the same function, taking one extra keyword argument (operators forward `**kwargs` to the user function)"""
+    def fk(x, *, kw_):
+        assert kw_ == 7
+        return f(x)
+    return fk
+
+
+def _kw2(g):
+    def gk(z, x, *, kw_):
+        assert kw_ == 7
+        return g(z, x)
+    return gk
+
+
+def build(ops, src, prints, kw=False):
+    """src: the source, or (internal) a Stream to extend.  kw: every user function is handed to its operator together with a keyword argument (legal use of the
+    operators' `**kwargs`; same meaning)"""
+    s = src if isinstance(src, Stream) else Stream(src)
+    if kw:
+        for op in ops:
+            k = op[0]
+            if k == 'map':
+                s.map(_kw1(make_fn(op[1])), kw_=7)
+            elif k == 'filter':
+                s.filter(_kw1(make_fn(op[1])), kw_=7)
+            elif k == 'groupby':
+                s.groupby(_kw1(make_fn(op[1])), kw_=7).map(lambda kv: (kv[0], list(kv[1])))
+            elif k == 'accumulate':
+                if op[2] is None:
+                    s.accumulate(_kw2(make_fn2(op[1])), kw_=7)
+                else:
+                    s.accumulate(_kw2(make_fn2(op[1])), to_py(op[2][0]), kw_=7)
+            elif k == 'parmap':
+                s.parmap(_kw1(make_fn(op[1])), executor='thread', concurrency=op[2], return_x=op[3],
+                         return_exceptions=op[4], kw_=7)
+            else:
+                build([op], s, prints)
+        return s
     for op in ops:
         k = op[0]
         if k == 'map':
@@ -541,7 +578,7 @@ def _one_run(case, k, mode):
     err = tuple(case['err']) if case['err'] is not None else None
     src = Source(vals, err)
     prints = []
-    stream = build(case['ops'], src, prints)
+    stream = build(case['ops'], src, prints, kw=bool(case.get('kw')))
     built = (src.pulled, src.iters)
     out = []
     n = 0
@@ -904,7 +941,7 @@ def gen_case(rng, tier, boundary=False):
     if partial:
         ks = sorted({rng.choice([0, 1, 1, 2, 3, ln, ln + 1, rng.randrange(0, 2 * ln + 2)]) for _ in range(2)})
     return dict(vals=vals, err=err, ops=ops, ks=ks, consume=rng.choice(['iter', 'collect', 'drain', 'iter']),
-                again=rng.random() < 0.3, seed=rng.randrange(1 << 30))
+                again=rng.random() < 0.3, kw=rng.random() < 0.25, seed=rng.randrange(1 << 30))
 
 
 # fixed regression / boundary programs that are always run first
@@ -935,6 +972,8 @@ def corpus():
         dict(vals=[1, {'e': [0, 3]}, 2], err=None, ops=[['filterExc', [0], 'none', True]], ks=[1]),
         dict(vals=[1, {'e': [0, 3]}, 2], err=None, ops=[['peek', 5, 'list']], ks=[]),
         dict(vals=[1, 2, 3], err=None, ops=[['accumulate', 'add', None]], ks=[], again=True),
+        dict(vals=[1, 2, 3], err=None, ops=[['accumulate', 'add', [5]], ['map', 'add:1']], ks=[1], again=True, kw=True),
+        dict(vals=r, err=None, ops=[['filter', 'isEven'], ['groupby', 'mod:3'], ['parmap', 'ident', 2, True, False]], ks=[1], again=True, kw=True),
         dict(vals=r, err=None, ops=[['accumulate', 'max', [3]], ['batch', 2], ['shuffle', 2, [1], [0, 1]]], ks=[], again=True),
     ]
     for c in cs:
